@@ -76,7 +76,7 @@ pub fn split_cfg_for(scheme: &str) -> Option<SplitCfg> {
 pub fn layout(obs: &Obs, overlay: bool) -> Result<Layout, String> {
     // memory classes of other platforms (7800 display / frequency RAM, RAM chips) are not laid
     // out by the 2600 builder this layout replicates
-    if let Some(v) = obs.vars.iter().find(|v| v.def == Def::None && matches!(v.mem, Mem::Display | Mem::Frequency | Mem::Ramchip | Mem::Ramplus)) {
+    if let Some(v) = obs.vars.iter().find(|v| !matches!(v.def, Def::Value(_)) && matches!(v.mem, Mem::Display | Mem::Frequency | Mem::Ramchip | Mem::Ramplus)) {
         return Err(format!("memory class of '{}' is not modelled by the 2600 layout", v.name));
     }
     let mut l = Layout::default();
